@@ -199,6 +199,8 @@ def explore_forms(chunk):
                 continue
             tuples = [(first, b, c) for b in pool3 for c in pool3]
         for t in tuples:
+            if "10^400" in t and "*" in fname:
+                continue      # a repeat count of 10^400: resource exhaustion
             args = [sweep.POOL[sweep.POOL_INDEX[a]][1](s) for a in t]
             if any(isinstance(a, (core.ckl.values.ValueInput,
                                   core.ckl.values.ValueOutput))
@@ -371,6 +373,51 @@ def explore_protos(chunk):
                           {"kind": "proto", "src": src, "_exp": exp},
                           exp, got, size=len(src))
         agg.count("cases")
+    return agg
+
+
+def compound_programs():
+    """x[k, d] op= v (and x->m op= v) is the element assignment
+    x[k] = x[k, d] op v: same container afterwards, nothing else touched"""
+    targets = {
+        "map-missing": ("<<<'b' => 5>>>", "t['a', 10]", "t['a']",
+                        "t['a', 10]"),
+        "map-present": ("<<<'a' => 7, 'b' => 5>>>", "t['a', 10]", "t['a']",
+                        "t['a', 10]"),
+        "map-nodefault": ("<<<'a' => 7>>>", "t['a']", "t['a']", "t['a']"),
+        "obj-missing": ("<*b = 5*>", "t['a', 10]", "t['a']", "t['a', 10]"),
+        "obj-present": ("<*a = 7, b = 5*>", "t['a', 10]", "t['a']",
+                        "t['a', 10]"),
+        "obj-member": ("<*a = 7, b = 5*>", "t->a", "t->a", "t->a"),
+        "list": ("[7, 5]", "t[0]", "t[0]", "t[0]"),
+        "list-neg": ("[7, 5]", "t[-1]", "t[-1]", "t[-1]"),
+    }
+    for tname, (lit, lhs, plain, read) in targets.items():
+        for op in ("+", "-", "*", "/", "%"):
+            for v in ("3", "2.5", "'x'" if op == "+" else "4"):
+                a = (f"do def t = {lit}; def u = t; {lhs} {op}= {v}; "
+                     f"[string(t), u == t] end")
+                b = (f"do def t = {lit}; def u = t; "
+                     f"{plain} = {read} {op} {v}; [string(t), u == t] end")
+                yield tname, op, f"[{a}, {b}]"
+
+
+def explore_compound(chunk):
+    agg = core.Agg()
+    s = core.Session(secure=True, legacy=True)
+    for tname, op, src in compound_programs():
+        s.reset()
+        o = s.run(src, "compound", fuel=30000)
+        agg.count("steps")
+        agg.cls(("compound", tname, op, o[0]))
+        if not (o[0] == "value" and o[1] == "list"
+                and literal_pair_equal(o[2])):
+            agg.violation({"what": "compound-assignment", "target": tname,
+                           "op": op},
+                          {"kind": "literal", "src": src},
+                          "[v, v] (compound and explicit form agree)",
+                          list(o), size=len(src))
+    agg.count("cases")
     return agg
 
 
@@ -824,6 +871,7 @@ def main(tier, seed):
     agg.merge(core.pmap(explore_alias, jobs))
     agg.merge(core.pmap(explore_literals, [[x] for x in LITERALS]))
     agg.merge(core.pmap(explore_protos, [{}]))
+    agg.merge(core.pmap(explore_compound, [{}]))
     core.finish(
         PID, tier, seed, agg, t0,
         rule=(f"(a) {len(s.funcs)} functions x all argument tuples of arity "
